@@ -458,7 +458,7 @@ func (w *worker) tableState() (uint64, uint64, error) {
 
 	ctx, cancel := context.WithTimeout(context.Background(), w.logTimeout)
 	defer cancel()
-	idxRes, err := t.LeaderIndex(ctx, false)
+	idxRes, err := t.LeaderIndex(ctx, true)
 	if err != nil {
 		return 0, 0, fmt.Errorf("could not get leader index key: %w", err)
 	}
